@@ -490,7 +490,9 @@ def bump_slots(index):
     from .rat import Rat
     bump_fn = index.func(PARAMS, "Parameters.increase_biofuels_then_feed")
     cls = index.cls(PARAMS, "Parameters")
-    bparams = [a.arg for a in bump_fn.args.args][1:]
+    from .core import own_params
+    bparams = own_params(bump_fn)
+    bump_is_method = len(bparams) < len(bump_fn.args.args)
     inc_p = [p_ for p_ in bparams if "increase" in p_]
     slots = []
     if len(inc_p) == 1:
@@ -513,7 +515,7 @@ def bump_slots(index):
                 return NotImplemented
 
             it.call_hook = hk
-            return it.call_function(bump_fn, [A[p_] for p_ in bparams], {}, Obj(cls, {}, "self"))
+            return it.call_function(bump_fn, [A[p_] for p_ in bparams], {}, Obj(cls, {}, "self") if bump_is_method else None)
 
         try:
             leaves = [x for x in explore(run_el, month_classes=False) if not isinstance(x[2], Abort)]
